@@ -61,7 +61,7 @@ T = {
          "brute-force enumeration is the specification; Go map iteration order is part of the workload"),
  "C19": ("gated-task scenarios with in-flight / exactly-once / finished-before-Wait monitors, injected panics; race detector",
          "Submitted functions carry an in-flight counter, execution counter and finished flag and block on harness-controlled gates: bound never exceeded and observed tight, every task once, Wait returns after all finished, panic values reach the handler, no slot leak after panics (fresh blocking tasks all admitted), default limit 3.",
-         "a stuck wait is a verdict only when the token channel is confirmed full by reflection; otherwise inconclusive"),
+         "a stuck wait is a verdict only when the state seen then says so: the token channel confirmed full by reflection, or (whatever the representation) a Go call pending for 20 s while fewer than n functions run, all held by the harness, and every other started function has finished; otherwise inconclusive"),
  "C20": ("round-trip + exhaustive byte enumeration + clock-sandwich order monitor + shape monitors",
          "Base32 round trip and Base2/36/String vs strconv; every byte value at every position of 1-3 byte inputs (and digit-prefixed 4-byte inputs; all 2^32 in thorough) must be rejected iff outside the alphabet; IdGenerator time field sandwiched between clock readings, monotone across disjoint sandwiches; StrGenerator length/alphabet over hostile sources; CountGenerator monotone and within Min/Max.",
          "same monotonic clock as golib; low-entropy sources that never offer an accepted index excluded"),
@@ -72,22 +72,22 @@ EXTRA = {
  "C01": " Also: requested capacities around every power of two up to 2^20 (also under GOMAXPROCS 3/5/7), element types other than int (nil interface values, nil pointers, zero-size, multi-word), and honest runs of 2^32 push/pop pairs (thorough; in the quick tier when the seek does not understand the ring's layout).",
  "C02": " Also: unobserved-operation windows, kept All() sequences run later and twice, comparators returning differences/huge magnitudes, private lists on parallel goroutines, cold-start child processes.",
  "C03": " Also: unobserved-operation windows, kept All() sequences, two live iterators, several dense buckets converted up and down on parallel workers, cold-start child processes.",
- "C04": " Also: unobserved-operation windows on handles, chains of Init on non-empty heaps with old handles, kept/nested/panicking PopAll, heaps of 4095..131073 elements.",
- "C05": " Also: two tries used alternately with kept and scribbled results and rebuilds, overlong/near-valid encodings, fan-out above 256, >65536-node tries, patterns and keys above 65535 bytes.",
- "C06": " Also: staged Insert/Build with the same call before and after each rebuild, tries differing in one pattern used alternately on reused text buffers, invalid-byte patterns, long patterns/texts/fan-out, cold-start child processes.",
+ "C04": " Also: unobserved-operation windows on handles, chains of Init on non-empty heaps with old handles, kept/nested/panicking PopAll, heaps of 4095..131073 elements. Element types other than the two-word item: wide structs (5..16 words), strings, pointers, nil-able interfaces, floats, bytes, zero-size elements on Slice, Heap and the generic functions.",
+ "C05": " Also: two tries used alternately with kept and scribbled results and rebuilds, overlong/near-valid encodings, fan-out above 256, >65536-node tries, patterns and keys above 65535 bytes. One node with 750..12000 children spread over the whole code space.",
+ "C06": " Also: staged Insert/Build with the same call before and after each rebuild, tries differing in one pattern used alternately on reused text buffers, invalid-byte patterns, long patterns/texts/fan-out, cold-start child processes. Keywords that are runs of one rune on a longer run (a rune inside 127..4096 occurrences at once).",
  "C07": " Also: argument arenas overwritten after each call with every result kept and re-read, inputs of 16 B..256 KiB beside every power of two, cold-start child processes per entry point.",
  "C08": " Also: dst/src as regions of one arena, key/iv buffers reused in place, MiB-sized messages in place, cold-start child processes (decrypt before any encrypt).",
- "C09": " Also: arguments lying back to back in one caller buffer, secret buffers overwritten in place between uninterrupted calls, MiB-sized messages, inputs unchanged after Decrypt, cold-start child processes.",
+ "C09": " Also: arguments lying back to back in one caller buffer, secret buffers overwritten in place between uninterrupted calls, MiB-sized messages, inputs unchanged after Decrypt, cold-start child processes. Plaintext, secret, ciphertext and additional data as defined string / []byte types.",
  "C10": " Also: unobserved-operation windows, requested capacities around every power of two up to 2^20 (also under GOMAXPROCS 3/5/7), element types other than int, cold-start child processes.",
- "C11": "",
+ "C11": " Also: free-running streams over element types other than int (80..1024-byte structs, strings, pointers, interfaces) with several consumers blocked in PopWait(-1): exactly-once, per-producer order per consumer, quiescent length.",
  "C12": " Also: multi-hundred-key writes against whole-map snapshots, kept All() sequences, scribbled Keys/Values results, maps of 1100..4200 keys emptied by bulk Delete next to single-writer keys (conservation oracle).",
- "C13": " Also: unobserved-operation windows (incl. never-observed zero values), kept All() sequences run twice/nested/pulled alternately/with panicking yield, lists of 2^k-1..2^k+1 nodes up to 65537.",
+ "C13": " Also: unobserved-operation windows (incl. never-observed zero values), kept All() sequences run twice/nested/pulled alternately/with panicking yield, lists of 2^k-1..2^k+1 nodes up to 65537. Element types other than int (128..1024-byte structs, strings, nil-able interfaces, pointers, zero-size) with Swap of neighbours and removed nodes re-inserted.",
  "C14": " Also: capacity-limited self-aliased arguments, arguments scribbled after the call, NaN/-0 elements, the same buffers call after call with kept results, operands up to 70001 elements, FlexSlice windows and capacities around 2^12..2^17.",
  "C15": " Also: uninterrupted call histories changing one ingredient at a time with all results kept, faulty/partly consumed/panicking readers followed by healthy ones, inputs up to 4 MiB, cold-start child processes per entry point.",
  "C16": " Also: unobserved-operation windows with permuted first observer, kept All() sequences, sets of 15..65537 words, callbacks that read/edit/panic, recovered unallocatable Add.",
  "C17": " Also: strings sharing one arena with kept results, panicking/re-entrant RemoveRunes predicates, strings up to 1.5 MiB with runes across power-of-two offsets, 97 KB identifiers, cold-start child processes.",
- "C18": " Also: weights/values/limits up to MaxInt with a saturating oracle, one Graph value grown and re-initialised with kept results, serial sessions on one caller buffer with panicking and re-entrant callbacks, 65..300 items and graphs of 65..4100 vertices, labels that print alike.",
- "C19": " Also: limiters reused over many batches with timed Wait, two limiters with blocking handlers, Goexit and nil/hostile panic values, surplus submissions while the bound is tight.",
+ "C18": " Also: weights/values/limits up to MaxInt with a saturating oracle, one Graph value grown and re-initialised with kept results, serial sessions on one caller buffer with panicking and re-entrant callbacks, 65..300 items and graphs of 65..4100 vertices, labels that print alike. Limits of 2^16..2^21 whose best selection loads the knapsack to exactly the limit.",
+ "C19": " Also: limiters reused over many batches with timed Wait, two limiters with blocking handlers, Goexit and nil/hostile panic values, surplus submissions while the bound is tight. Streams of 10^5 empty functions through 1..3 slots (park/wake windows) with a representation-independent slot-unavailable verdict; the library's LogPanic at depths 1..5000 and the built-in reporter with panic values rendered at 0/200/1024/4096/65536 bytes; SetPanicHandler again between submissions.",
  "C20": " Also: AddRule windows with permuted first observer, kept results, failing/short crypto/rand readers then healthy ones, n and character sets up to 2^20/2^18, cold-start and reconfigured-default child processes.",
 }
 
